@@ -35,6 +35,15 @@
 //	                           is the content on disk, then let two more reload calls pass;  hold: poll until
 //	                           the watcher made three more failing reload calls (`ticks=ok`, else `ticks=few`)
 //
+//	nested <A> <B>             write config A and Reload; listener 0, while being notified of that reload,
+//	                           writes config B and starts a second Reload (waits <= 2 s for it), then returns
+//
+// Config tokens ok/warn with nonce 10 or 11 additionally set every field the config metadata marks
+// `reload: true` (that the validator accepts, see reloadExtras) to a non-default value, variant 0/1.
+//
+// `g=` lists the getters of config.Config (all no-argument methods by reflection, three with fixed
+// arguments) whose result on the running config differs from a fresh NewConfig of the same files.
+//
 // obs of start/reload/reg:
 //
 //	su=<ok|warn|fail> err=<none|warn|fail|logged|-> ap=<cfgtok>/<rulestok>|- send=<s> rate=<r> n=<c0,c1,…>
@@ -50,7 +59,9 @@ import (
 	"fmt"
 	"os"
 	"path/filepath"
+	"reflect"
 	"runtime"
+	"sort"
 	"strconv"
 	"strings"
 	"sync"
@@ -84,13 +95,190 @@ func depBlock(dep string) string {
 // ConfigWatcher.monitor ticks on real time with that period.
 var ivlLine = ""
 
+// ---- reloadable fields, taken from the config package's own metadata (`reload: true`)
+
+type extraField struct {
+	group, name string
+	val         func(x int) string // YAML scalar / flow value for variant x (0 or 1), never the default
+}
+
+var (
+	extrasOnce sync.Once
+	extras     []extraField
+)
+
+// candidateExtras synthesises a non-default value per field type.  Skipped (no generic way to make a
+// value the validator accepts): url, memorysize, percentage, float, strings with a format or without
+// choices, arrays of non-strings, fields with requiredWith/requiredInGroup/conflictsWith validations,
+// deprecated fields and groups (they would add a warning), and Traces.SendDelay (the template sets it).
+func candidateExtras() []extraField {
+	md, err := config.LoadConfigMetadata()
+	if err != nil {
+		return nil
+	}
+	var out []extraField
+	for _, g := range md.Groups {
+		if g.LastVersion != "" || g.DeprecationText != "" {
+			continue
+		}
+		for _, f := range g.Fields {
+			if !f.Reload || f.LastVersion != "" || f.DeprecationText != "" || (g.Name == "Traces" && f.Name == "SendDelay") {
+				continue
+			}
+			skip := false
+			minimum := ""
+			for _, v := range f.Validations {
+				switch v.Type {
+				case "minimum":
+					minimum = fmt.Sprint(v.Arg)
+				case "elementType":
+					if fmt.Sprint(v.Arg) != "string" {
+						skip = true
+					}
+				case "notempty", "maximum":
+				default:
+					skip = true
+				}
+			}
+			if skip {
+				continue
+			}
+			def := ""
+			if f.Default != nil {
+				def = fmt.Sprint(f.Default)
+			}
+			var val func(x int) string
+			switch f.Type {
+			case "bool":
+				val = func(x int) string { return strconv.FormatBool(x == 0) }
+			case "defaulttrue":
+				val = func(x int) string { return strconv.FormatBool(x != 0) }
+			case "int":
+				base, _ := strconv.Atoi(def)
+				if m, err := strconv.Atoi(minimum); err == nil && m > base {
+					base = m
+				}
+				val = func(x int) string { return strconv.Itoa(base + 7 + x) }
+			case "duration":
+				base, _ := time.ParseDuration(def)
+				if m, err := time.ParseDuration(minimum); err == nil && m > base {
+					base = m
+				}
+				val = func(x int) string { return (base + time.Duration(3+x)*time.Second).String() }
+			case "stringarray":
+				val = func(x int) string { return fmt.Sprintf("[\"verif.f%d\", \"verif.g\"]", x) }
+			case "map":
+				val = func(x int) string { return fmt.Sprintf("{verifkey: \"v%d\"}", x) }
+			case "string":
+				if len(f.Choices) < 2 {
+					continue
+				}
+				ch := f.Choices
+				val = func(x int) string { return ch[(1+x)%len(ch)] }
+			default:
+				continue
+			}
+			out = append(out, extraField{g.Name, f.Name, val})
+		}
+	}
+	return out
+}
+
+func renderCfg(sendDelay, nonce, dep string, warn bool, fields []extraField, x int) []byte {
+	type grp struct {
+		name  string
+		lines []string
+	}
+	var groups []*grp
+	get := func(n string) *grp {
+		for _, g := range groups {
+			if g.name == n {
+				return g
+			}
+		}
+		g := &grp{name: n}
+		groups = append(groups, g)
+		return g
+	}
+	gen := get("General")
+	gen.lines = append(gen.lines, "ConfigurationVersion: 2")
+	if ivlLine != "" {
+		gen.lines = append(gen.lines, strings.TrimSpace(ivlLine))
+	}
+	get("Traces").lines = append(get("Traces").lines, "SendDelay: "+sendDelay+"s")
+	if warn {
+		if dep == "cachecap" {
+			get("Collection").lines = append(get("Collection").lines, "CacheCapacity: 10000")
+		} else {
+			get("RedisPeerManagement").lines = append(get("RedisPeerManagement").lines, "Prefix: legacy")
+		}
+	}
+	for _, f := range fields {
+		get(f.group).lines = append(get(f.group).lines, f.name+": "+f.val(x))
+	}
+	var b strings.Builder
+	for _, g := range groups {
+		b.WriteString(g.name + ":\n")
+		for _, l := range g.lines {
+			b.WriteString("  " + l + "\n")
+		}
+	}
+	b.WriteString("# " + nonce + "\n")
+	return []byte(b.String())
+}
+
+// reloadExtras: the candidates the real validator accepts, found by adding them one at a time to a
+// minimal config and asking the real NewConfig (once per process).
+func reloadExtras() []extraField {
+	extrasOnce.Do(func() {
+		dir := filepath.Join(tmpRoot, fmt.Sprintf("%d-extras", os.Getpid()))
+		os.MkdirAll(dir, 0o755)
+		defer os.RemoveAll(dir)
+		cp, rp := filepath.Join(dir, "cfg.yaml"), filepath.Join(dir, "rules.yaml")
+		rb, _ := rulesBytes("ok:1:0")
+		os.WriteFile(rp, rb, 0o644)
+		opts := &config.CmdEnv{ConfigLocations: []string{cp}, RulesLocations: []string{rp}}
+		saved := ivlLine
+		ivlLine = ""
+		defer func() { ivlLine = saved }()
+		valid := func(fs []extraField, x int) bool {
+			os.WriteFile(cp, renderCfg("1", "0", "prefix", false, fs, x), 0o644)
+			c, err := config.NewConfig(opts)
+			return c != nil && err == nil
+		}
+		var kept []extraField
+		for _, f := range candidateExtras() {
+			try := append(append([]extraField{}, kept...), f)
+			if valid(try, 0) {
+				kept = try
+			}
+		}
+		if !valid(kept, 1) {
+			var k2 []extraField
+			for _, f := range kept {
+				try := append(append([]extraField{}, k2...), f)
+				if valid(try, 1) && valid(try, 0) {
+					k2 = try
+				}
+			}
+			kept = k2
+		}
+		extras = kept
+	})
+	return extras
+}
+
 func cfgBytes(tok, dep string) ([]byte, bool) {
 	p := strings.Split(tok, ":")
 	switch p[0] {
-	case "ok":
-		return []byte(fmt.Sprintf("General:\n  ConfigurationVersion: 2\n%sTraces:\n  SendDelay: %ss\n# %s\n", ivlLine, p[1], p[2])), true
-	case "warn":
-		return []byte(fmt.Sprintf("General:\n  ConfigurationVersion: 2\n%sTraces:\n  SendDelay: %ss\n%s# %s\n", ivlLine, p[1], depBlock(dep), p[2])), true
+	case "ok", "warn":
+		// nonce 10/11: the file also sets every reloadable field (variant 0/1) to a non-default value
+		var fs []extraField
+		x := 0
+		if n, _ := strconv.Atoi(p[2]); n == 10 || n == 11 {
+			fs, x = reloadExtras(), n-10
+		}
+		return renderCfg(p[1], p[2], dep, p[0] == "warn", fs, x), true
 	case "bad":
 		switch p[1] {
 		case "0":
@@ -132,8 +320,14 @@ func genCfgTok(r *kit.Rng, cur string, nonce *int) string {
 	*nonce++
 	switch r.Pick(30, 22, 18, 8, 12) {
 	case 0:
+		if r.Chance(35) { // every reloadable field set (variant 0/1), see reloadExtras
+			return fmt.Sprintf("ok:%d:%d", 1+r.Intn(4), 10+r.Intn(2))
+		}
 		return fmt.Sprintf("ok:%d:%d", 1+r.Intn(4), r.Intn(2)) // small space: repeats (unchanged / back to an old content) are common
 	case 1:
+		if r.Chance(25) {
+			return fmt.Sprintf("warn:%d:%d", 1+r.Intn(4), 10+r.Intn(2))
+		}
 		return fmt.Sprintf("warn:%d:%d", 1+r.Intn(4), r.Intn(2))
 	case 2:
 		return fmt.Sprintf("bad:%d:%d", r.Intn(4), 1+r.Intn(4))
@@ -259,7 +453,17 @@ func (comp) Gen(r *kit.Rng, maxLen int, tier string) kit.Case {
 	}
 	stressed := false
 	for i := 0; i < n; i++ {
-		switch r.Pick(30, 16, 40, 6, 2) {
+		switch r.Pick(30, 16, 40, 6, 2, 5) {
+		case 5:
+			// a listener callback of the reload that applies A rewrites the file to B and triggers again
+			nonce++
+			a := fmt.Sprintf("ok:%d:%d", 1+r.Intn(4), 300+nonce)
+			b := fmt.Sprintf("ok:%d:%d", 1+r.Intn(4), 400+nonce)
+			if r.Chance(15) {
+				b = genCfgTok(r, a, &nonce)
+			}
+			ops = append(ops, "nested "+a+" "+b)
+			curC = "?"
 		case 0:
 			curC = genCfgTok(r, curC, &nonce)
 			ops = append(ops, "wc "+curC)
@@ -316,7 +520,9 @@ type runner struct {
 	nonce    int
 	curC     string // tokens last written (for the verdict cache only)
 	curR     string
-	watcher  bool // kind=watcher: reloads come from the real ConfigWatcher's timer
+	hookMu   sync.Mutex
+	hook     func() // one-shot, run by listener 0 inside its next notification
+	watcher  bool   // kind=watcher: reloads come from the real ConfigWatcher's timer
 	ivl      time.Duration
 	cc       *countingConfig
 	ps       *pubsub.LocalPubSub
@@ -439,12 +645,89 @@ func errClass(err error) string {
 // on disk and the options, so the verdict is remembered per content pair within a run)
 var verdictCache = map[string]string{}
 
+// freshCache: the config a fresh NewConfig produced for a content pair (nil when startup fails)
+var freshCache = map[string]config.Config{}
+
+func (r *runner) contentKey() string {
+	return ivlLine + "|" + r.dep + "|" + r.ver + "|" + r.curC + "|" + r.curR
+}
+
+var configIface = reflect.TypeOf((*config.Config)(nil)).Elem()
+
+// canon makes results of two loads of the same files comparable: GetConfigMetadata carries the file
+// locations (the fresh load may come from another case's directory).
+func canon(name string, v []reflect.Value) []any {
+	out := make([]any, len(v))
+	for i := range v {
+		out[i] = v[i].Interface()
+		if name == "GetConfigMetadata" {
+			if md, ok := out[i].([]config.ConfigMetadata); ok {
+				cp := append([]config.ConfigMetadata{}, md...)
+				for j := range cp {
+					cp[j].ID = ""
+				}
+				out[i] = cp
+			}
+		}
+	}
+	return out
+}
+
+// getterDiff calls every method of the config.Config interface that takes no argument (by
+// reflection over the interface's method set), and the three that take arguments on fixed arguments,
+// on the running config and on a fresh load of the same files; it returns the names that differ.
+func getterDiff(running, fresh config.Config) []string {
+	var diff []string
+	rv, fv := reflect.ValueOf(running), reflect.ValueOf(fresh)
+	for i := 0; i < configIface.NumMethod(); i++ {
+		m := configIface.Method(i)
+		var args []reflect.Value
+		switch {
+		case m.Type.NumIn() == 0 && m.Type.NumOut() > 0:
+		case m.Name == "GetSamplerConfigForDestName":
+			args = []reflect.Value{reflect.ValueOf("anything")}
+		case m.Name == "GetSamplingKeyFieldsForDestName":
+			args = []reflect.Value{reflect.ValueOf("anything")}
+		case m.Name == "DetermineSamplerKey":
+			args = []reflect.Value{reflect.ValueOf("key"), reflect.ValueOf("env"), reflect.ValueOf("dataset")}
+		default:
+			continue // Reload, RegisterReloadCallback
+		}
+		a := canon(m.Name, rv.MethodByName(m.Name).Call(args))
+		b := canon(m.Name, fv.MethodByName(m.Name).Call(args))
+		if !reflect.DeepEqual(a, b) {
+			diff = append(diff, m.Name)
+		}
+	}
+	sort.Strings(diff)
+	return diff
+}
+
+// getters: "ok", or the getters of the running config that do not show what a fresh load of the
+// files it claims to run (same hashes) shows.
+func (r *runner) getters() string {
+	fresh := freshCache[r.contentKey()]
+	if r.cfg == nil || fresh == nil || r.curC == "" || r.curC == "?" {
+		return "ok"
+	}
+	ch, rh := r.cfg.GetHashes()
+	fc, fr := fresh.GetHashes()
+	if ch != fc || rh != fr {
+		return "ok" // the running config is not the content on disk: nothing to compare with
+	}
+	if d := getterDiff(r.cfg, fresh); len(d) > 0 {
+		return strings.Join(d, ",")
+	}
+	return "ok"
+}
+
 func (r *runner) startupVerdict() string {
-	key := ivlLine + "|" + r.dep + "|" + r.ver + "|" + r.curC + "|" + r.curR
-	if v, ok := verdictCache[key]; ok && r.curC != "" && r.curR != "" {
+	key := r.contentKey()
+	if v, ok := verdictCache[key]; ok && r.curC != "" && r.curR != "" && r.curC != "?" {
 		return v
 	}
 	c, err := r.newConfig()
+	freshCache[key] = c
 	v := "ok"
 	switch {
 	case c == nil:
@@ -465,7 +748,7 @@ func (r *runner) tok(h string) string {
 
 func (r *runner) state(su, errs string) string {
 	if r.cfg == nil {
-		return fmt.Sprintf("su=%s err=%s ap=- send=- rate=- n=-", su, errs)
+		return fmt.Sprintf("su=%s err=%s ap=- send=- rate=- n=- g=ok", su, errs)
 	}
 	ch, rh := r.cfg.GetHashes()
 	send := int64(time.Duration(r.cfg.GetTracesConfig().GetSendDelay()) / time.Second)
@@ -483,7 +766,7 @@ func (r *runner) state(su, errs string) string {
 		}
 		ns = strings.Join(s, ",")
 	}
-	return fmt.Sprintf("su=%s err=%s ap=%s/%s send=%d rate=%s n=%s", su, errs, r.tok(ch), r.tok(rh), send, rate, ns)
+	return fmt.Sprintf("su=%s err=%s ap=%s/%s send=%d rate=%s n=%s g=%s", su, errs, r.tok(ch), r.tok(rh), send, rate, ns, r.getters())
 }
 
 func (r *runner) addListener() {
@@ -496,6 +779,15 @@ func (r *runner) addListener() {
 		r.stressMu.Lock()
 		r.perHash[idx][cfgHash]++
 		r.stressMu.Unlock()
+		if idx == 0 {
+			r.hookMu.Lock()
+			h := r.hook
+			r.hook = nil
+			r.hookMu.Unlock()
+			if h != nil {
+				h()
+			}
+		}
 	})
 }
 
@@ -519,6 +811,7 @@ func (r *runner) Do(op []string) (string, bool) {
 		if c == nil {
 			return r.state("fail", errClass(err)), true
 		}
+		r.startupVerdict() // a second, independent load to compare the getters with
 		r.cfg = c
 		r.lg = &logger.MockLogger{}
 		if r.watcher {
@@ -570,6 +863,46 @@ func (r *runner) Do(op []string) (string, bool) {
 			}
 			return r.state(su, e), true
 		}
+	case "show": // development aid: the bytes a config token stands for
+		b, _ := cfgBytes(op[1], r.dep)
+		return kit.Enc(string(b)), true
+	case "nested":
+		// reload #1 applies A; inside listener 0's notification the file becomes B and reload #2 is
+		// triggered (as the pubsub notice of a peer, or the next tick, during a slow callback)
+		if r.cfg == nil {
+			return "nostart", true
+		}
+		if len(r.counts) == 0 {
+			return "nolistener", true
+		}
+		a, okA := cfgBytes(op[1], r.dep)
+		r.write(r.cpath, a, okA, op[1])
+		r.curC = op[1]
+		var fired atomic.Bool
+		done2 := make(chan struct{})
+		r.hookMu.Lock()
+		r.hook = func() {
+			fired.Store(true)
+			b, okB := cfgBytes(op[2], r.dep)
+			r.write(r.cpath, b, okB, op[2])
+			go func() { defer close(done2); r.cfg.Reload() }()
+			select { // bounded: a Reload that is serialized behind #1 cannot return before we do
+			case <-done2:
+			case <-time.After(2 * time.Second):
+			}
+		}
+		r.hookMu.Unlock()
+		r.cfg.Reload()
+		r.hookMu.Lock()
+		r.hook = nil
+		r.hookMu.Unlock()
+		f := 0
+		if fired.Load() {
+			<-done2
+			r.curC = op[2]
+			f = 1
+		}
+		return r.state(r.startupVerdict(), "-") + fmt.Sprintf(" fired=%d", f), true
 	case "await":
 		// the watcher's own timer must bring the running config to the content on disk
 		if r.cfg == nil || !r.watcher {
